@@ -161,17 +161,17 @@ SCAN_ENS = [
 
 SCAN_OUTER_INV = '''
             invariant_except_break
-                it.index@ <= rs.len(), union_more(rs, *ctx) == it.index@ + union_more(rs.skip(it.index@), *ctx),
-                acc_ok(all_layer_inodes@, rs, *ctx, it.index@ as nat),
+                it.index@ <= rs.len(), union_more(rs, *ctx) == it.index@ + union_more(rs.skip(it.index@), *ctx), // [scan_layers] the layers read so far are the ones the overlayfs rules let contribute
+                acc_ok(all_layer_inodes@, rs, *ctx, it.index@ as nat), // [scan_entries] per name: the entries found so far, topmost layer first
             invariant
                 rs == self.ris(), it.seq().len() == rs.len(), forall|i: int| 0 <= i < rs.len() ==> *it.seq()[i] == rs[i],
             ensures
-                acc_ok(all_layer_inodes@, rs, *ctx, union_more(rs, *ctx)),
+                acc_ok(all_layer_inodes@, rs, *ctx, union_more(rs, *ctx)), // [scan_layers]
         '''
 SCAN_INNER_INV = '''
             invariant
                 0 <= p <= l0.len(), ent_it.rem() == l0.skip(p), map_listing(d, l0), d == sp_listing(rs[j], *ctx), 0 <= j < rs.len(),
-                acc_mid(all_layer_inodes@, rs, *ctx, j as nat, d, l0, p),
+                acc_mid(all_layer_inodes@, rs, *ctx, j as nat, d, l0, p), // [scan_entries]
             ensures p == l0.len(),
             decreases ent_it.rem().len(),
         '''
@@ -264,12 +264,12 @@ def unit(root='/repo'):
     newn.body_hooks = [R.r28_for_owned(r'\bfor\s+(ri)\s+in\s+(real_inodes)\s*\{', 'vec_into_iter', 'ri_it', header_extra='''
             invariant_except_break
                 0 <= k <= all.len(), ri_it.rem() == all.skip(k), first <==> k == 0,
-                k > 0 ==> new.ris() == all.take(k) && union_len(all, c0) == k + union_more(all.skip(k), c0),
+                k > 0 ==> new.ris() == all.take(k) && union_len(all, c0) == k + union_more(all.skip(k), c0), // [union_rule] so far exactly the entries the overlayfs rules merge
             invariant
                 all.len() > 0, all == real_inodes@, c0 == %s, path@ == old_path,
                 k > 0 ==> new.whiteout.v == all[0].whiteout && new.inode == ino && new.path@ == path@ && new.name@ == name@ && !new.loaded.v && new.childrens.v@ == Map::<Seq<char>, Arc<OverlayInode>>::empty(),
             ensures
-                k > 0 && new.ris() == all.take(union_len(all, c0) as int),
+                k > 0 && new.ris() == all.take(union_len(all, c0) as int), // [union_rule]
             decreases ri_it.rem().len(),
         ''' % CTX0)]
     newn.splices.append(('let mut new = Self::new();', 'after', 'let ghost old_path = path@;'))
@@ -296,17 +296,16 @@ def unit(root='/repo'):
               splices=[('let mut all_layer_inodes: HashMap<String, Vec<RealInode>> = HashMap::new();', 'before', 'let ghost rs = self.ris(); let ghost c0 = %s; proof { assert(rs.skip(0) =~= rs); }' % CTX0),
                        ('\n                };', 'after', SCAN_AFTER_ENTRY),
                        ('let entries = ri.readdir(ctx)?;', 'after', 'let ghost d = entries@;'),
-                       ('if ri.opaque {', 'before', SCAN_AFTER_LAYER),
                        ('let mut childrens = vec![];', 'replace', 'let ghost a_fin = all_layer_inodes@; let ghost m = union_more(rs, *ctx); let ghost mut p2: int = 0; let mut childrens: Vec<OverlayInode> = vec![];'),   # type ascription: inference needs it before the invariant mentions the vector
                        ('childrens.push(new);', 'after', 'proof { p2 = p2 + 1; }'),
                        ('Ok(childrens)', 'before', SCAN_FINAL)])
     scan.body_hooks = [
         R.r27_drop_zip_counter(label='it: ', header_extra=SCAN_OUTER_INV, body_prefix=' let ghost j = it.index@; proof { assert(*ri == rs[j]); lemma_union_more_step(rs, j, *ctx); }'),
-        R.r28_for_owned(r'\bfor\s+(\(name, inode\))\s+in\s+(entries)\s*\{', 'map_into_iter', 'ent_it', header_extra=SCAN_INNER_INV, body_prefix=SCAN_INNER_PRE, mid=SCAN_INNER_MID),
+        R.r28_for_owned(r'\bfor\s+(\(name, inode\))\s+in\s+(entries)\s*\{', 'map_into_iter', 'ent_it', header_extra=SCAN_INNER_INV, body_prefix=SCAN_INNER_PRE, mid=SCAN_INNER_MID, after=SCAN_AFTER_LAYER),
         R.r28_for_owned(r'\bfor\s+(\(name, real_inodes\))\s+in\s+(all_layer_inodes)\s*\{', 'map_into_iter', 'child_it', header_extra=SCAN_CHILD_INV, body_prefix=SCAN_CHILD_PRE, mid=' let ghost l2 = child_it.rem(); proof { assert(l2.skip(0) =~= l2); }'),
     ]
     fns.append(scan)
     items.append(Group('impl OverlayInode {', fns))
-    u = Unit('ovl_merge', items, preludes=['base.rs', 'stdmodel.rs'], generic_tags=C.GENERIC_TAGS, notes='; '.join(notes))
+    u = Unit('ovl_merge', items, preludes=['base.rs', 'stdmodel.rs'], generic_tags=dict(C.GENERIC_TAGS, union_rule=['C10'], scan_layers=['C10'], scan_entries=['C10']), notes='; '.join(notes))
     u.prelude_subst = [C.LIBC_EXTRA, C.NO_STD_HASHMAP, ('Mutex', 'MutexRo'), ('AtomicBool', 'AtomicBoolRo')]
     return u
